@@ -25,7 +25,7 @@ RULE = ("form sequences from the syntax IR (all form kinds, nested) rendered wit
         "token-safe concatenations, and repository .hy forms with separators inserted at sibling gaps. "
         "Non-trivial = >= 3 forms with >= 1 comment or discard inside a nested sequence; distinct by text.")
 FLOOR = {"quick": 2000, "thorough": 2000}
-BUDGET = {"quick": 28, "thorough": 420}
+BUDGET = {"quick": 25, "thorough": 420}
 CASE_TIMEOUT = 30
 NEEDS_EVENTS = True
 ANCHORS = ["hy.reader.hy_reader:HyReader.discard", "hy.reader.hy_reader:HyReader.line_comment",
